@@ -601,7 +601,7 @@ def units_C08(tier, seed):
 # ------------------------------------------------------------------------------------------------ C12
 INFO['C12'] = {
     'bounds': 'field types strided<size2,array<float1>>, morton<size2,array<float1>,portable>, affine<linear<strided<...>>>; '
-              'inductive step: pre-state = 2 slots (quick) / 3 slots (thorough), each empty / live / moved-from, live fields built '
+              'inductive step: pre-state = 2 slots (quick) / 3 slots for the ownership operations (thorough), each empty / live / moved-from, live fields built '
               'through the API with extents in {1,2}^2 (storage <= 4 cells) and symbolic contents; ONE operation with symbolic slot '
               'arguments (aliasing allowed): copy-construct, move-construct, copy-assign (incl. self), move-assign, write through a '
               'view, destroy, converting copy through the other layout, dump/load; post: every live slot equals its plain-array model at '
@@ -626,8 +626,11 @@ def units_C12(tier, seed):
             if not th and t == 1 and op in (4, 5):
                 continue
             fl = ('rel', 'san') if (op in (2, 3) or th) else ('rel',)
-            U += unit(f'c12_step_{opn[op]}_t{t}', H, f'step_h<{t},{op},{ns}>()', sites=[1, 2, 4, 90], flavours=fl,
-                      diff=(t == 0 and op in (2, 6)), weight=100 if th else 10, cfg={'max_paths': 200000, 'max_traces': 3}, timeout=3000)
+            # three slots for the ownership operations; the operations with symbolic coordinates / conversions / IO keep two
+            nsl = ns if op in (0, 1, 2, 3, 5) else 2
+            U += unit(f'c12_step_{opn[op]}_t{t}', H, f'step_h<{t},{op},{nsl}>()', sites=[1, 2, 4, 90], flavours=fl,
+                      diff=(t == 0 and op in (2, 6)), weight=100 if th else 10,
+                      cfg={'max_paths': 400000, 'max_traces': 3, 'max_instrs': 400_000_000}, timeout=7200 if th else 3000)
     for t in (0, 2) if not th else (0, 1, 2):
         ln = 3 if th else 2
         U += unit(f'c12_hist_{ln}_t{t}', H, f'hist_h<{t},{ln},2>()', sites=[11, 12, 14, 90], diff=(t == 0), weight=1000,
